@@ -104,6 +104,23 @@ def run(tier):
         chk.violation(dict(cipher=cipher, ev=ev["ev"], got=ev.get("exc") or "sent"),
                       "%s session %d: event %d %s %s" % (info["cfgname"], info["index"], idx - a, ev["ev"], ev.get("exc") or ""),
                       dict(info=info, events=rec.events[max(a, idx - 6):idx + 1]))
+    # nothing confidential goes out in clear only if a configured privacy key switches privacy ON: what the User layer hands to the
+    # socket for every privacy key a caller may configure (every key type, empty material included) - TraceKeys.tla
+    from checks import c12
+    kev = [e for e in c12.python_layer_events() if e["ev"] == "UserKeys" and e.get("pcipher")]
+    krec = trace.Recorder("c14keys")
+    for e in kev:
+        krec.emit(e)
+    kv = trace.validate("TraceKeys.tla", "TraceKeys.cfg", krec.close(), timeout=900)
+    chk.add_tlc(kv["res"], "TraceKeys (privacy keys through User)")
+    chk.traces += 1
+    for f in kv["fails"][:10]:
+        e = kev[f - 1]
+        chk.violation(dict(kind="user-privacy-key", kt=e["kt"], pcipher=e["pcipher"], plen=len(e["pkey"])),
+                      "User(auth key of %d octets, privacy key (cipher %d, key type %d) of %d octets): handed to the socket: privacy algorithm %s, key of %d octets - a configured privacy key must switch privacy on" %
+                      (len(e["akey"]), e["pcipher"], e["kt"], len(e["pkey"]), e.get("palg_out"), len(e["outp"])), dict(info=dict(user_keys=True)))
+    for e in kev:
+        chk.case(("user-privacy-key", e["aalg"], e["kt"], e["pcipher"], len(e["pkey"]), len(e["akey"])))
     chk.sample(dict(kind="session", info=runs[0][2], first_events=[{k: (x if k not in ("wire", "interp") else "...") for k, x in e.items()} for e in rec.events[runs[0][0]:runs[0][0] + 4]]))
     chk.assumptions += ["2^32 / 2^64 messages are not executed: the counter is positioned below the wrap-around through the cfg(gufo_snmp_verif) hook verif_set_salt and the run crosses it"]
     return chk.finish()
@@ -112,6 +129,18 @@ def run(tier):
 def replay(path):
     d = json.load(open(path))
     info = d["replay"]["info"]
+    if info.get("user_keys"):
+        from checks import c12
+        kev = [e for e in c12.python_layer_events() if e["ev"] == "UserKeys" and e.get("pcipher")]
+        krec = trace.Recorder("c14keys-replay")
+        for e in kev:
+            krec.emit(e)
+        kv = trace.validate("TraceKeys.tla", "TraceKeys.cfg", krec.close(), timeout=900)
+        if kv["fails"]:
+            print("VIOLATION property=C14 replay=%s" % path)
+            return 1
+        print("replay: accepted")
+        return 0
     if info.get("api_history"):
         from checks import c13
         rc = c13.replay(path)
